@@ -127,7 +127,38 @@ func substW(ws []W, from1, to1, from2, to2 string) []W {
 // callEntry checks `v := C[key]; out, err := entry(key, v); if err != nil { return out, err }`
 // where keyTerm is the term of the key at this point; returns nil on success.
 func (w *encWalker) callEntry(body []ast.Stmt, e *env, coll, keyTerm string, fnObj types.Object) error {
+	return w.callEntryV(body, e, coll, keyTerm, fnObj, nil)
+}
+
+// callEntryV: as callEntry; when vPre is set the value is already bound by the range clause (`for k, v := range C`),
+// which is the value of that key, and the lookup statement is absent.
+func (w *encWalker) callEntryV(body []ast.Stmt, e *env, coll, keyTerm string, fnObj types.Object, vPre types.Object) error {
 	info := w.e.info
+	if vPre != nil {
+		if len(body) != 2 {
+			return und("map loop body must be: entry call, error check")
+		}
+		c, ok := body[0].(*ast.AssignStmt)
+		if !ok || c.Tok != token.DEFINE || len(c.Lhs) != 2 {
+			return und("map loop body: entry call")
+		}
+		call, ok := c.Rhs[0].(*ast.CallExpr)
+		if !ok || !w.isIdent(call.Fun, fnObj) || len(call.Args) != 2 {
+			return und("map loop body: entry call form")
+		}
+		a0, err := e.term(call.Args[0])
+		if err != nil {
+			return err
+		}
+		if a0 != keyTerm || !w.isIdent(call.Args[1], vPre) {
+			return fmt.Errorf("entry closure is called with (%s, %s), expected (%s, value of that key)", a0, types.ExprString(call.Args[1]), keyTerm)
+		}
+		errID, _ := c.Lhs[1].(*ast.Ident)
+		if errID == nil || !w.isErrReturn(body[1], errID) {
+			return fmt.Errorf("error of the entry closure is not returned")
+		}
+		return nil
+	}
 	if len(body) != 3 {
 		return und("map loop body must be: value lookup, entry call, error check")
 	}
@@ -189,12 +220,20 @@ func (w *encWalker) plainMapLoop(s ast.Stmt, fnObj types.Object) (string, error)
 		return "", und("plain arm does not range over the map")
 	}
 	kv, _ := rs.Key.(*ast.Ident)
-	if kv == nil || rs.Value != nil {
-		return "", und("plain arm must range over keys only")
+	if kv == nil {
+		return "", und("plain arm must bind the key")
 	}
 	ce := w.e.child()
 	ce.set(info.ObjectOf(kv), "key("+coll+")")
-	if err := w.callEntry(rs.Body.List, ce, coll, "key("+coll+")", fnObj); err != nil {
+	var vPre types.Object
+	if rs.Value != nil {
+		vid, ok := rs.Value.(*ast.Ident)
+		if !ok || vid.Name == "_" {
+			return "", und("plain arm range value form")
+		}
+		vPre = info.ObjectOf(vid)
+	}
+	if err := w.callEntryV(rs.Body.List, ce, coll, "key("+coll+")", fnObj, vPre); err != nil {
 		return "", err
 	}
 	return coll, nil
@@ -385,8 +424,15 @@ func (w *encWalker) checkLess(fn ast.Expr, keys types.Object, elemT types.Type) 
 				return val{b: l.n != r.n || l.b != r.b}, nil
 			}
 		case *ast.CallExpr:
-			// conversion to the key type
+			// a conversion keeps the ordering only when it is injective and monotone on the operand's type:
+			// identical underlying types, or a widening within the signed / unsigned integers (and int32/uint32 ->
+			// float64, float32 -> float64). Anything else (int64 -> float64, narrowing, signed <-> unsigned) can
+			// map different keys to the same value or reorder them: the finite-ordering evaluation would be wrong.
 			if tv, ok := info.Types[t.Fun]; ok && tv.IsType() && len(t.Args) == 1 {
+				from, to := info.TypeOf(t.Args[0]), tv.Type
+				if !orderPreserving(from, to) {
+					return val{}, fmt.Errorf("comparator converts %s to %s, which does not preserve the order of all keys", from, to)
+				}
 				return eval(t.Args[0], a, b)
 			}
 		}
@@ -431,4 +477,49 @@ func ord3(a, b int) string {
 		return ">"
 	}
 	return "="
+}
+
+// orderPreserving: converting from -> to is injective and monotone.
+func orderPreserving(from, to types.Type) bool {
+	if from == nil || to == nil {
+		return false
+	}
+	fb, ok1 := from.Underlying().(*types.Basic)
+	tb, ok2 := to.Underlying().(*types.Basic)
+	if !ok1 || !ok2 {
+		return false
+	}
+	if fb.Kind() == tb.Kind() {
+		return true
+	}
+	bits := map[types.BasicKind]int{types.Int8: 8, types.Int16: 16, types.Int32: 32, types.Int64: 64, types.Int: 32,
+		types.Uint8: 8, types.Uint16: 16, types.Uint32: 32, types.Uint64: 64, types.Uint: 32}
+	signed := func(k types.BasicKind) bool { return k == types.Int8 || k == types.Int16 || k == types.Int32 || k == types.Int64 || k == types.Int }
+	unsigned := func(k types.BasicKind) bool { return k == types.Uint8 || k == types.Uint16 || k == types.Uint32 || k == types.Uint64 || k == types.Uint }
+	f, t := fb.Kind(), tb.Kind()
+	switch {
+	case signed(f) && signed(t), unsigned(f) && unsigned(t):
+		fw, tw := bits[f], bits[t]
+		if f == types.Int || f == types.Uint {
+			fw = 64 // may be 64 bits wide
+		}
+		return tw >= fw
+	case unsigned(f) && signed(t):
+		fw := bits[f]
+		if f == types.Uint {
+			fw = 64
+		}
+		return bits[t] > fw && t != types.Int
+	case (signed(f) || unsigned(f)) && t == types.Float64:
+		fw := bits[f]
+		if f == types.Int || f == types.Uint {
+			fw = 64
+		}
+		return fw <= 32
+	case f == types.Float32 && t == types.Float64:
+		return true
+	case f == types.String && t == types.String, f == types.Bool && t == types.Bool:
+		return true
+	}
+	return false
 }
